@@ -154,10 +154,10 @@ theorem C01_separator_text : stmtsText (match sepBlock with | .verbatim ss _ => 
 /-! ### Non-vacuity -/
 
 def exStmts : List Stmt :=
-  [⟨"# c\n".toList, .comment, false, [], 1⟩,
-   ⟨"'''doc'''\n".toList, .docstr, false, [], 2⟩,
-   ⟨"import os\n".toList, .other, true, [⟨"os".toList, "os".toList⟩], 3⟩,
-   ⟨"x = sys.argv\n".toList, .other, false, [], 4⟩]
+  [⟨"# c\n".toList, .comment, false, [], 1, 1⟩,
+   ⟨"'''doc'''\n".toList, .docstr, false, [], 2, 1⟩,
+   ⟨"import os\n".toList, .other, true, [⟨"os".toList, "os".toList⟩], 3, 1⟩,
+   ⟨"x = sys.argv\n".toList, .other, false, [], 4, 1⟩]
 
 example : (fixStage2 exStmts ⟨[(3, ⟨"os".toList, "os".toList⟩)], [(4, "sys".toList)]⟩
       [⟨"sys".toList, "sys".toList⟩] [⟨"__future__.annotations".toList, "annotations".toList⟩]
